@@ -24,13 +24,13 @@ type ArgOp struct {
 
 type ArgsCase struct {
 	Kind    string  `json:"kind"` // "args"
-	Variant string  `json:"variant"` // plain capture evalvis block
+	Variant string  `json:"variant"` // plain capture evalvis block evalvar (a direct eval that declares a var)
 	Init    []int64 `json:"init"`
 	Ops     []ArgOp `json:"ops"`
 }
 
 func genArgs(r *vh.Rng) ArgsCase {
-	c := ArgsCase{Kind: "args", Variant: []string{"plain", "capture", "evalvis", "block"}[r.Intn(4)]}
+	c := ArgsCase{Kind: "args", Variant: []string{"plain", "capture", "evalvis", "block", "evalvar", "evalvar"}[r.Intn(6)]}
 	n := 1 + r.Intn(2)
 	for i := 0; i < n; i++ {
 		c.Init = append(c.Init, int64(1+r.Intn(5)))
@@ -96,6 +96,8 @@ func (c ArgsCase) source() string {
 		b.WriteString("(function () { return a0; }); ")
 	case "evalvis":
 		b.WriteString("eval(\"\"); ")
+	case "evalvar":
+		b.WriteString("eval(\"var zz = 1\"); ")
 	}
 	if c.Variant == "block" {
 		b.WriteString("{ let zz = 0; ")
